@@ -377,7 +377,7 @@ prop("C20", level="exploration",
 
 prop("C04", level="fault_enumeration",
      stages=[dict(pkg="fullstack", test="TestC04", sub="termination", race=True, vary_gomaxprocs=True,
-                  cases=dict(quick=900, thorough=12000), timeout=3600)],
+                  cases=dict(quick=640, thorough=12000), timeout=3600)],
      technique="runtime monitoring: consumer-side channel monitors (closed-by-quiescence as bounded liveness, error identity) and a wire-log monitor for the Cancel message, over enumerated trigger kinds x logical positions (fabric gates) x responder kinds (real / scripted with every terminal code / silent) x extras (pause, hook errors, injected send failures); process crash = send on closed channel; Go race detector",
      level_text=("Small DAGs; trigger in {terminal status delivered, context cancel, cancel API} x position in {immediately, while queued (single worker occupied), "
                  "after j response messages with the responder then held by a fabric gate, after terminal delivery} x responder in {real, scripted with each of "
@@ -390,5 +390,5 @@ prop("C04", level="fault_enumeration",
      rule=("One evaluation = one scenario. Non-trivial = executed and decided; distinct by (responder, trigger, position, extra, code, j, size); "
            "distinct_sets.scenario_kinds = distinct (responder, trigger, position, extra) combinations."),
      min_nontrivial=dict(quick=300, thorough=4000),
-     min_counters=dict(triggers_that_happened=dict(quick=400, thorough=6000)),
+     min_counters=dict(triggers_that_happened=dict(quick=300, thorough=6000)),
      assumptions=_fs_assume)
